@@ -24,7 +24,7 @@ PROFILES = {
                   criteria_forms=("cmp", "list"), aligned=0.5),
     "flat": dict(max_containers=5, max_depth=2, fanout=4, fields=(1, 6), kinds=("int", "int", "float", "enum", "bool",
                  "str", "bin", "time", "calint"), nested=0.0, ctx=0.0, dcal=0.3, dyn=0.0, desc=0.0,
-                 arbitrary_names=0.0, criteria_forms=("cmp",), aligned=1.0, flat=True),
+                 arbitrary_names=0.0, criteria_forms=("cmp",), aligned=0.8, flat=True),
     "lengths": dict(max_containers=4, max_depth=2, fanout=2, fields=(1, 4), kinds=("str", "bin", "bin", "lenint", "int",
                     "float"), nested=0.2, ctx=0.0, dcal=0.15, dyn=0.8, desc=0.0, arbitrary_names=0.1,
                     criteria_forms=("cmp", "list"), aligned=0.6, negative_adj=True),
@@ -196,9 +196,10 @@ class Gen:
             elif small or self.p.get("small_ints"):
                 bits = d(st.integers(1, 8))
             elif self.aligned_doc:
-                bits = d(st.sampled_from([8, 8, 16, 16, 24, 32, 40, 64, 72]))
+                bits = d(st.sampled_from([8, 8, 16, 16, 24, 32, 40, 64, 72] if not self.p.get("flat") else
+                                         [8, 8, 16, 16, 24, 32, 40, 64, 64]))
             else:
-                bits = d(st.one_of(st.integers(1, 16), st.integers(1, 72)))
+                bits = d(st.one_of(st.integers(1, 16), st.integers(1, 72 if not self.p.get("flat") else 64)))
             enc = {"k": "int", "bits": bits, "sign": d(st.sampled_from(["unsigned", "unsigned", "signed", "twosComplement"])),
                    "order": d(st.sampled_from([BE, BE, LE])) if bits % 8 == 0 else BE}
         else:
